@@ -56,6 +56,7 @@ type loopKey struct {
 type openLoop struct {
 	variant string
 	snap    *State // state at the head of the current iteration (after havoc + invariant)
+	exited  bool   // control has left the loop through its normal exit (from the head to a block outside)
 }
 
 func (s *State) clone() *State {
@@ -782,10 +783,23 @@ func (x *Exec) block(st *State, fr *Frame, b, prev *ssa.BasicBlock, k Kont) {
 		x.note("path length cap hit")
 		return
 	}
+	// leaving a loop through its normal exit: from the loop head to a block outside the loop
+	if prev != nil {
+		if plp := fr.loops.byHead[prev]; plp != nil && !plp.blocks[b] {
+			key := loopKey{fr.id, prev}
+			if ol := st.open[key]; ol != nil && !ol.exited {
+				cp := *ol
+				cp.exited = true
+				st.open[key] = &cp
+			}
+		}
+	}
 	if lp := fr.loops.byHead[b]; lp != nil {
 		key := loopKey{fr.id, b}
 		if ol := st.open[key]; ol != nil {
-			// back edge: preservation + variant
+			// back edge: preservation + variant. The path ends here: it is a leaf for the sharding pre-pass too
+			// (otherwise no shard owns the branches that lead only to back edges and their obligations vanish)
+			x.leaf(st)
 			x.loopArrive(st, fr, lp, b, ol, false)
 			return
 		}
